@@ -1,5 +1,6 @@
 import Ledger.Machine.Ast
 import Ledger.Machine.Allotment
+import Ledger.Machine.Validate
 
 /-!
 Static checks of the real compiler (`script/compiler/*.go`): `typecheck` returns
@@ -14,7 +15,10 @@ abbrev Decls := List (String × Ty)
 /-- `VisitExpr` / `VisitLit` / `VisitVariable`: the type of an expression. -/
 def typeExpr (ds : Decls) : Expr → Except String Ty
   | .acct _ => .ok .account
-  | .asset _ => .ok .asset
+  | .asset s =>
+    -- `VisitLit`/`LitAsset`: `machine.ValidateAsset` (commit 6f26ac5)
+    if validAsset s then .ok .asset
+    else .error ("asset should respect pattern '" ++ assetPatternText ++ "'")
   | .num _ => .ok .number
   | .str _ => .ok .string
   | .portion t =>
@@ -134,7 +138,7 @@ mutual
         else
           let world := isWorldE e
           let after (fb : Bool) : Except String (List String × Bool) :=
-            if fb ∧ isAll then .error "cannot take all balance of an unbounded source"
+            if fb && isAll then .error "cannot take all balance of an unbounded source"
             else .ok ([acctKey e], fb)
           match od with
           | .none => after world
@@ -166,9 +170,9 @@ mutual
       match checkSource ds isAll s with
       | .error err => .error err
       | .ok (em, fb) =>
-        let last := match rest with | .nil => true | .cons _ _ => false
-        if fb ∧ ¬ last then .error "an unbounded subsource can only be in last position"
-        else if em.any (fun k => emptied.contains k) ∨ ¬ em.Nodup then .error "already empty at this stage"
+        let last : Bool := match rest with | .nil => true | .cons _ _ => false
+        if fb && !last then .error "an unbounded subsource can only be in last position"
+        else if em.any (fun k => emptied.contains k) then .error "already empty at this stage"
         else
           match rest with
           | .nil => .ok (emptied ++ em, fb)
